@@ -68,7 +68,7 @@ func (t *tr) eval(e ast.Expr) AV {
 		case avMap:
 			st := t.cur.ps.maps[b.id]
 			if t.dataMaps[b.id] {
-				return avUnknown{}
+				return avMapElem{b.id}
 			}
 			if st.present {
 				return st.val
@@ -363,6 +363,9 @@ func (t *tr) bind(l ast.Expr, v AV, define bool) {
 			case isUnknown(v):
 				if _, seen := t.dataMapsNew[m.id]; !seen {
 					t.dataMapsNew[m.id] = true
+				}
+				if t.ranged[m.id] {
+					t.cur.ps.maps[m.id] = mapState{present: true, val: avUnknown{}}
 				}
 			default:
 				t.dataMapsNew[m.id] = false
